@@ -21,7 +21,7 @@ Observed ==
 TReset == /\ Ev.a = "Reset"
           /\ cnt' = [k \in Keys |-> 0] /\ buf' = [k \in Keys |-> [i \in 0..(L + 1) |-> 0]]
           /\ chk' = [k \in Keys |-> 0] /\ cur' = NoKey /\ out' = <<>> /\ maxidx' = -1
-          /\ tx' = [k \in Keys |-> [open |-> FALSE, bytes |-> <<>>, sum |-> 0]] /\ txcur' = NoKey /\ ref' = <<>>
+          /\ tx' = [k \in Keys |-> Closed] /\ txcur' = NoKey /\ ref' = <<>>
           /\ info' = [k \in Keys |-> <<>>] /\ cyc' = [c \in 0..3 |-> {}] /\ evs' = <<>>
           /\ nev' = 0 /\ lastAct' = [a |-> "init"]
 
@@ -33,7 +33,7 @@ TNext == /\ l <= Len(Log) /\ l' = l + 1
             \/ Ev.a = "End" /\ EndC(Ev.c) /\ Observed
             \/ Ev.a = "Caption" /\ Caption /\ Observed
             \/ Ev.a = "Null" /\ Null /\ Observed
-            \/ Ev.a = "Error" /\ Error /\ Observed
+            \/ Ev.a = "Error" /\ Error(Ev.b1, Ev.b2) /\ Observed
 
 TInit == Init /\ l = 1
 TSpec == TInit /\ [][TNext]_tvars
